@@ -351,12 +351,20 @@ func runHistory(c *vf.Ctx, caseNo int, dir string) (h histOut, cleanup func()) {
 	}
 
 	for i := range setupReqs {
-		if !doReq(&setupReqs[i]) {
-			return
-		}
-		if h.Reqs[len(h.Reqs)-1].Class != "applied" {
-			h.SetupErr = fmt.Sprintf("setup request %d: %+v", i, h.Reqs[len(h.Reqs)-1])
-			return
+		for try := 0; ; try++ {
+			if !doReq(&setupReqs[i]) {
+				return
+			}
+			last := h.Reqs[len(h.Reqs)-1]
+			if last.Class == "applied" || last.Class == "unknown:1" {
+				break
+			}
+			if try == 20 || last.Class == "unknown:2" {
+				h.SetupErr = fmt.Sprintf("setup request %d: %+v", i, last)
+				return
+			}
+			cl.WaitLeader(30 * time.Second)
+			time.Sleep(200 * time.Millisecond)
 		}
 	}
 	ep.setCalm(false)
